@@ -8,6 +8,8 @@
                | (duplicate "pkg" "obj" "aspkg" "asobj" ("omitted field" …))
                | (replace "pkg" "obj" "topkg" "toobj")
     namesok (<op> …) <schemas-vir>            -> closed=<b> side=<b> hyp=<b>   (hypotheses of C05_names)
+    c05chains                                 -> <lang>=<Pass>+<Pass>…;…  (the chains the theorems are about)
+    c05pass InferEntrypoint <schemas-vir>     -> ok <schemas-vir>
     c05witness list | c05witness <name>       -> ok <names…> | <request line of the witness>
 -/
 import Cog.IR.Vir
@@ -15,6 +17,8 @@ import Cog.Closed.FilterSchemas
 import Cog.Closed.NameOps
 import Cog.Closed.Witness
 import Cog.Closed.Seq
+import Cog.Closed.InferEntrypoint
+import Cog.Gen.Chains
 namespace Cog.Drv
 open Cog Cog.IR Cog.Closed
 
@@ -115,6 +119,40 @@ def namesokLine (rest : String) : String :=
       "closed=" ++ toString (closed S) ++ " side=" ++ toString (seqOK side ts S) ++ " hyp=" ++ toString (seqOK opOK ts S)
     | _, _ => "bad-request"
   | _ => "bad-request"
+
+def passGoName : Cog.Passes.PassId → String
+  | .anonymousStructsToNamed => "AnonymousStructsToNamed"
+  | .notRequiredFieldAsNullableType => "NotRequiredFieldAsNullableType"
+  | .disjunctionWithNullToOptional => "DisjunctionWithNullToOptional"
+  | .disjunctionOfConstantsToEnum => "DisjunctionOfConstantsToEnum"
+  | .anonymousEnumToExplicitType => "AnonymousEnumToExplicitType"
+  | .prefixEnumValues => "PrefixEnumValues"
+  | .flattenDisjunctions => "FlattenDisjunctions"
+  | .disjunctionOfAnonymousStructsToExplicit => "DisjunctionOfAnonymousStructsToExplicit"
+  | .disjunctionInferMapping => "DisjunctionInferMapping"
+  | .undiscriminatedDisjunctionToAny => "UndiscriminatedDisjunctionToAny"
+  | .disjunctionToType => "DisjunctionToType"
+  | .removeIntersections => "RemoveIntersections"
+  | .sanitizeEnumMemberNames => "SanitizeEnumMemberNames"
+  | .inlineObjectsWithTypes ks => "InlineObjectsWithTypes:" ++ ",".intercalate ks
+  | .renameNumericEnumValues => "RenameNumericEnumValues"
+
+/-- the chains the C05 chain theorems speak about: the regenerated five, and `schemaLangChain` -/
+def c05chainsLine : String :=
+  let five := ["go", "java", "php", "python", "typescript"].map fun l =>
+    l ++ "=" ++ "+".intercalate (((Cog.Gen.Chains.chainOf l).getD []).map passGoName)
+  let two := ["jsonschema", "openapi"].map fun l => l ++ "=DisjunctionWithNullToOptional+InferEntrypoint"
+  ";".intercalate (five ++ two)
+
+def c05passLine (rest : String) : String :=
+  match rest.splitOn " " with
+  | "InferEntrypoint" :: more =>
+    match Sexp.parse (" ".intercalate more) with
+    | some sx => match Vir.schemasIn sx with
+      | some S => Vir.outcomeOut Vir.schemasOut (Cog.Closed.InferEntrypoint.run S)
+      | none => "bad-vir"
+    | none => "bad-sexp"
+  | _ => "unknown-pass"
 
 open ClosedDrv in
 def c05witnessLine (rest : String) : String :=
